@@ -1,8 +1,18 @@
 import CnbVerif.Driver.C04
 import CnbVerif.Driver.C03
+import CnbVerif.Driver.C01
+import CnbVerif.Driver.C10
 import CnbVerif.Driver.C19
 import CnbVerif.Driver.C13
 import CnbVerif.Driver.C09
+import CnbVerif.Driver.C05
+import CnbVerif.Driver.C08
+import CnbVerif.Driver.C14
+import CnbVerif.Driver.C18
+import CnbVerif.Driver.C17
+import CnbVerif.Driver.C07
+import CnbVerif.Driver.C16
+import CnbVerif.Driver.C06
 /-!
 Model driver. One request per line, tab separated: `<property> \t <input fields…> \t <implementation observation>`.
 Answer: `<model observation> \t <spec verdict on the implementation's observation>`.
@@ -18,9 +28,19 @@ def dispatch (line : String) : String :=
       let (m, v) :=
         if prop = "c04" then DriverC04.handle fields obs
         else if prop = "c03" then DriverC03.handle fields obs
+        else if prop = "c01" then DriverC01.handle fields obs
+        else if prop = "c10" then DriverC10.handle fields obs
         else if prop = "c19" then DriverC19.handle fields obs
         else if prop = "c13" then DriverC13.handle fields obs
         else if prop = "c09" then DriverC09.handle fields obs
+        else if prop = "c05" then DriverC05.handle fields obs
+        else if prop = "c08" then DriverC08.handle fields obs
+        else if prop = "c14" then DriverC14.handle fields obs
+        else if prop = "c18" then DriverC18.handle fields obs
+        else if prop = "c17" then DriverC17.handle fields obs
+        else if prop = "c07" then DriverC07.handle fields obs
+        else if prop = "c16" then DriverC16.handle fields obs
+        else if prop = "c06" then DriverC06.handle fields obs
         else ("bad-op", "bad-op")
       m ++ "\t" ++ v
     | [] => "bad-op\tbad-op"
